@@ -399,6 +399,11 @@ func reexec(goit string, rf *ReplayFile, dir string) (bool, []JFail, error) {
 	}
 	c.Add(tr, rf.TZ0)
 	jr := c.JudgeWant("GoitTrace", 10*time.Minute, []string{rf.Property})
+	if k := os.Getenv("VERIF_KEEP"); k != "" {
+		os.MkdirAll(k, 0o777)
+		writeNdjson(filepath.Join(k, "trace.ndjson"), c.Lines)
+		writeJson(filepath.Join(k, "tables.json"), c.T.Dump())
+	}
 	if jr.Err != nil {
 		return false, nil, jr.Err
 	}
